@@ -71,6 +71,16 @@ def c19(res, rng, tier):
     for z in zs:
         for name, b in int_forms(z):
             lines.append("conv 0 %s" % (b + b".").hex()); meta.append(("int", z, name))
+    # the same integers with the operand of each opcode form straddling a refill boundary of the decoder's 4096-byte
+    # read buffer (a string payload + POP pads the stream): the helpers must see the same number
+    nint = len(lines)
+    for z in (0, 1, -1, 255, 256, 0x1234, 65535, 0x12345678, -0x12345678, 2**31 - 1, -2**31, 2**40 + 5, -2**63, 2**63 - 1, 2**70):
+        for name, b in int_forms(z):
+            for boundary in (4096, 8192):
+                for d in range(1, min(len(b), 9)):
+                    L = boundary - d - 6
+                    pad = b"T" + struct.pack("<I", L) + bytes([97 + (i % 7) for i in range(L)]) + b"0"
+                    lines.append("conv 0 %s" % (pad + b + b".").hex()); meta.append(("int", z, name + "@%d-%d" % (boundary, d)))
     # payloads x 9 opcodes x 2 modes
     r = rng.fork("payloads")
     payloads = [b"", b"a", b"'", b'"', b"\\", b"a\nb", b"\r", b"\x00", b"\x1a", b"\x7f", "é".encode(), b"\xff", b"\x80abc",
